@@ -279,6 +279,38 @@ def listing_fault_family(run, binary, tmp):
                 shutil.rmtree(root, ignore_errors=True)
 
 
+def big_listing_family(run, binary, tmp):
+    """Listings that are many times larger than the channel capacity (capacity override: a few kilobytes; the real 100 MiB needs about
+    a million entries): every entry message must be released from the channel's account when the boss takes it, whichever way it takes it
+    (blocking receive, poll, or the select over both listings) - otherwise the listing doer waits for capacity for ever."""
+    fake = e2e.fake_ssh_dir(tmp)
+    T = 1_600_000_000_000_000_000
+    for place in ('LL', 'RL', 'LR'):
+        for shape in ('both', 'src-only', 'dest-only'):
+            root = tempfile.mkdtemp(prefix='bl_', dir=tmp)
+            try:
+                tree = {'': {'k': 'dir'}}
+                for i in range(6):
+                    tree['dir%d' % i] = {'k': 'dir'}
+                    for j in range(60):
+                        tree['dir%d/file_with_a_rather_long_name_%03d.txt' % (i, j)] = {'k': 'file', 'data': b'x', 'mtime_ns': T + j}
+                e2e.build_tree(os.path.join(root, 's'), tree if shape != 'dest-only' else {'': {'k': 'dir'}})
+                e2e.build_tree(os.path.join(root, 'd'), tree if shape != 'src-only' else {'': {'k': 'dir'}})
+                args = [('localhost:' if place[0] == 'R' else '') + os.path.join(root, 's') + '/', ('localhost:' if place[1] == 'R' else '') + os.path.join(root, 'd') + '/']
+                r = e2e.run_cli(binary, args, fake_ssh=fake if 'R' in place else None, timeout=60, env={'RJRSSYNC_VERIF_CAPACITY': '3000'})
+                run.count('big-listing:%s:%s:exit:%s' % (place, shape, 'hang' if r['timed_out'] else r['exit']))
+                run.case(('big-listing', place, shape), True, sample={'placement': place, 'shape': shape, 'entries_per_side': len(tree) - 1, 'capacity': 3000, 'exit': r['exit']})
+                run.traces_validated += 1
+                if r['timed_out']:
+                    run.fail('C09 oracle: listings of %d entries against a channel capacity of 3000 bytes (%s, %s): the run did not hand control back within the watchdog (60 s): hang' % (len(tree) - 1, place, shape),
+                             {'family': 'big-listing', 'placement': place, 'shape': shape})
+                elif r['exit'] != 0:
+                    run.fail('C09/C14: a fault-free sync with listings larger than the channel capacity failed (exit %s): %s' % (r['exit'], r['stderr'][-300:]),
+                             {'family': 'big-listing', 'placement': place, 'shape': shape, 'exit': r['exit']})
+            finally:
+                shutil.rmtree(root, ignore_errors=True)
+
+
 def check(run, only=None):
     run.trusted = list(vlib.COMMON_TRUSTED) + [
         'modelled, not verified: crossbeam channel (FIFO, disconnect on drop), std::thread join/panic semantics, TCP and the kernel socket buffers, ssh',
@@ -356,6 +388,7 @@ def check(run, only=None):
         if only is None and nfail < MAX_FAIL:
             RS.family(run, binary, jremote, tmp)
             listing_fault_family(run, binary, tmp)        # (7) a directory that cannot be listed, on either side, local or remote
+            big_listing_family(run, binary, tmp)          # (8) listings many times larger than the channel capacity
     finally:
         shutil.rmtree(tmp, ignore_errors=True)
     run.extra['e2e_wall_s'] = round(time.time() - t0, 1)
